@@ -25,26 +25,27 @@ def exHist : Hist :=
 
 /-- the example tag with the given recorded matches and pending set -/
 def exTag (mat unc : IdSet) : Tag :=
-  { defn := "sport:80", mainT := [], subT := [], mfeat := 4, sfeat := 0, mat := mat, unc := unc }
+  { defn := "sport:80", mainT := [], subT := [], mfeat := 4, sfeat := 0, mat := mat, unc := unc, gen := 0 }
 
-/-- after `addTag`: the tag exists, nothing is pending (there are no streams) -/
-def exS1 : St := { tags := [("tag/x", exTag [] [])] }
+/-- after `addTag`: the tag exists (identity `gen = 0`, the counter `ngen` is 1 from now on), nothing is pending
+    (there are no streams) -/
+def exS1 : St := { tags := [("tag/x", exTag [] [])], ngen := 1 }
 /-- after `importPcaps`: the import job is in flight -/
 def exS2 : St :=
-  { tags := [("tag/x", exTag [] [])], queue := ["a.pcap"], pcaps := ["a.pcap"], jImport := some (0, []) }
+  { tags := [("tag/x", exTag [] [])], queue := ["a.pcap"], pcaps := ["a.pcap"], jImport := some (0, []), ngen := 1 }
 /-- after `importDone`: stream 0 exists and is pending for tag/x, whose tagging job is in flight -/
 def exS3 : St :=
   { tags := [("tag/x", exTag [] [0])], idx := [0], files := [(0, [0])], used := [(0, 2)], next := 1, all := 1,
-    nrec := 1, pcaps := ["a.pcap"], tag := true, jTag := some ("tag/x", exTag [] [0], [0]) }
+    nrec := 1, pcaps := ["a.pcap"], tag := true, jTag := some ("tag/x", exTag [] [0], [0]), ngen := 1 }
 /-- after `tagDone`: tag/x decides stream 0: it matches -/
 def exS4 : St :=
   { tags := [("tag/x", exTag [0] [])], idx := [0], files := [(0, [0])], used := [(0, 1)], next := 1, all := 1,
-    nrec := 1, pcaps := ["a.pcap"] }
+    nrec := 1, pcaps := ["a.pcap"], ngen := 1 }
 
 theorem ex_step1 (hp : parseTagName "tag/x" = ("tag", "x", false)) :
     step (initSt []) (.addTag "tag/x" "" "sport:80" exFacts) {} = (exS1, .ok) := by
   rw [step_addTag_eq, hp]
-  simp [exFacts, atTag, Tag.refs, strSet, initSt, sget, atFinish, atPair, setTag, sins, startTagging, eligible,
+  simp [exFacts, atTagG, atTag, Tag.refs, strSet, initSt, sget, atFinish, atPair, setTag, sins, startTagging, eligible,
     rangeSet, exS1, exTag]
 
 theorem ex_step2 : step exS1 (.importPcaps ["a.pcap"]) {} = (exS2, .none) := rfl
@@ -79,6 +80,7 @@ theorem ex_ok1 (hp : parseTagName "tag/x" = ("tag", "x", false)) :
     · intro n snap held h; cases h
     · intro m t h; cases h
     · intro h; cases h
+  featOK := ⟨fun h => absurd rfl h, fun h => absurd rfl h⟩
   addsNew := trivial
   truth := by
     refine ⟨fun _ => sameOn_refl _ _, fun _ => ?_⟩
@@ -86,15 +88,14 @@ theorem ex_ok1 (hp : parseTagName "tag/x" = ("tag", "x", false)) :
     rw [hp] at h; cases h
   result := trivial
   jobText := by intro jn snap held h; cases h
-  markRef := trivial
 
 theorem ex_ok2 : StepOK exS1 exT exT (.importPcaps ["a.pcap"]) {} exT where
   payload := ⟨trivial, trivial, trivial, trivial, trivial⟩
+  featOK := trivial
   addsNew := trivial
   truth := ⟨fun _ => sameOn_refl _ _, fun _ => sameOn_refl _ _⟩
   result := trivial
   jobText := by intro jn snap held h; cases h
-  markRef := trivial
 
 theorem ex_ok3 :
     StepOK exS2 exT exT (.importDone 1 1 [(0, [0])] [] [] [0]) { tag := some "tag/x" } exT where
@@ -114,6 +115,7 @@ theorem ex_ok3 :
       cases h
       refine ⟨fun id h => (by cases h), fun id h => (by cases h), fun id h => ?_⟩
       simp at h; omega
+  featOK := trivial
   addsNew := by
     intro jn held h id h1 h2
     cases h
@@ -124,13 +126,13 @@ theorem ex_ok3 :
     exact absurd rfl hne
   result := trivial
   jobText := by intro jn snap held h; cases h
-  markRef := trivial
 
 theorem ex_ok4 : StepOK exS3 exT exT (.tagDone "tag/x" [0]) {} exT where
   payload := by
     refine ⟨trivial, ?_, ?_, trivial, trivial⟩
     · intro jn snap held h; cases h; rfl
     · intro id h; simp at h; subst h; decide
+  featOK := trivial
   addsNew := trivial
   truth := ⟨fun _ => sameOn_refl _ _, fun _ => sameOn_refl _ _⟩
   result := by
@@ -138,7 +140,6 @@ theorem ex_ok4 : StepOK exS3 exT exT (.tagDone "tag/x" [0]) {} exT where
     cases h
     simp [exTag, exT]
   jobText := by intro jn snap held _; trivial
-  markRef := trivial
 
 /-! ## the example -/
 
